@@ -23,11 +23,30 @@ def _rshuffle(H, *a):
 def _ns():
     ns = histcheck.base_namespace()
     ns["rshuffle"] = _rshuffle
+    import pandas as pd
+
+    ns["pd"] = pd
     return ns
 
 
 GENERIC_ARGS = ["()", "(1)", "(0)", "([1, 2])", "([[1, 2]])", "(0, 1)", "(1, 2)", "([0])", "(1, 2, 0, 1)", "({0: [1, 2]})",
                 "([1, 2], 0)"]
+
+
+_CU_COMMON = [
+    "xgi.from_hyperedge_list([[5, 6]], create_using=H)", "xgi.from_hyperedge_dict({7: [5, 6]}, create_using=H)",
+    "xgi.from_incidence_matrix(np.array([[1], [1]]), create_using=H)", "xgi.from_simplex_dict({7: [5, 6]}, create_using=H)",
+    "xgi.from_bipartite_pandas_dataframe(pd.DataFrame([[5, 0], [6, 0]]), create_using=H)",
+    "xgi.parse_edgelist(['5 6'], create_using=H)", "xgi.parse_bipartite_edgelist(['5 0', '6 0'], create_using=H)",
+    "xgi.trivial_hypergraph(2, create_using=H)", "xgi.empty_hypergraph(create_using=H)",
+    "xgi.empty_simplicial_complex(create_using=H)", "xgi.empty_dihypergraph(create_using=H)",
+]
+CREATE_USING = {
+    "Hypergraph": _CU_COMMON + ["xgi.to_hypergraph([[5, 6]], create_using=H)", "xgi.to_hypergraph(xgi.Hypergraph([[5, 6]]), create_using=H)"],
+    "SimplicialComplex": _CU_COMMON + ["xgi.to_simplicial_complex([[5, 6]], create_using=H)"],
+    "DiHypergraph": ["xgi.to_dihypergraph([([5], [6])], create_using=H)", "xgi.empty_dihypergraph(create_using=H)",
+                     "xgi.from_hyperedge_dict({7: ([5], [6])}, create_using=H)", "xgi.empty_hypergraph(create_using=H)"],
+}
 
 
 def structure(obj):
@@ -53,6 +72,8 @@ def menu_for(obj):
         ops += ["H.clear_edges()", "rshuffle(H)", "H.merge_duplicate_edges()", "H.update(edges=[[1, 2]], nodes=[3])",
                 "H.remove_node_from_edge(0, 1)"] + A.gen_swaps(obj)[:6]
     ops += ["xgi.largest_connected_hypergraph(H, in_place=True)"] if cls != "DiHypergraph" else []
+    # library functions that fill the network passed as `create_using` (they empty it first): in-place with respect to it
+    ops += CREATE_USING[cls]
     mentioned = {o.split("(", 1)[0].replace("H.", "") for o in ops if o.startswith("H.")}
     mentioned |= {"random_edge_shuffle"}
     for name, f in inspect.getmembers(type(obj), predicate=inspect.isfunction):
@@ -133,6 +154,7 @@ def _inv_frozen(ctx):
         if Fz.is_frozen is not True:
             bad("is-frozen", f"is_frozen = {Fz.is_frozen!r} after {how}", how)
         fkey = _obs(Fz)
+        fstate = C.state_key(Fz)
         try:
             twin = Fz.copy()
             tsnap = C.snapshot(twin)
@@ -172,7 +194,40 @@ def _inv_frozen(ctx):
                 fkey = _obs(Fz)
             elif Fz.is_frozen is not True:
                 bad("is-frozen", f"is_frozen = {Fz.is_frozen!r} after the refused call `{op}`", how, op)
+            elif C.state_key(Fz) != fstate:
+                # the observable network is intact but some instance state moved (in practice the ID counter): harmless
+                # if it only advanced; a copy must still be editable without touching what it copied
+                why = _copy_stays_editable(Fz, cls)
+                if why:
+                    bad("copy-of-frozen", f"after the refused call `{op}` on the frozen network ({how}): {why}", how, op)
+                    Fz = make(spec.build(hist, ctx.ns))
+                    fkey = _obs(Fz)
+                fstate = C.state_key(Fz)
     return out
+
+
+def _copy_stays_editable(Fz, cls):
+    """copy() of the frozen network, then automatic additions: every copied edge must survive unchanged."""
+    try:
+        c = Fz.copy()
+        pre = C.snapshot(c)
+        for k in range(len(pre["edges"]) + 2):
+            if cls == "DiHypergraph":
+                c.add_edge(([f"new{k}"], [f"new{k}b"]))
+            elif cls == "SimplicialComplex":
+                c.add_simplex([f"new{k}", f"new{k}b"])
+            else:
+                c.add_edge([f"new{k}", f"new{k}b"])
+        post = C.snapshot(c)
+    except Exception as e:  # noqa: BLE001
+        return f"a copy could not be edited ({type(e).__name__}: {e})"
+    for e in pre["edges"]:
+        if post["members"].get(e) != pre["members"][e]:
+            return (f"automatic additions to a copy overwrote the copied edge {e!r}: {pre['members'][e]} -> "
+                    f"{post['members'].get(e)} (the refused call moved the automatic-ID counter backwards)")
+    if len(post["edges"]) != len(pre["edges"]) + len(pre["edges"]) + 2:
+        return f"{len(pre['edges']) + 2} automatic additions to a copy produced {len(post['edges']) - len(pre['edges'])} new edges"
+    return ""
 
 
 def _obs(H):
